@@ -3,14 +3,15 @@ package engines
 import (
 	"bytes"
 	"encoding/binary"
-	"math"
 	"errors"
 	"fmt"
 	"io"
+	"math"
 	"regexp"
 	"runtime"
 	"runtime/metrics"
 	"strings"
+	"time"
 
 	"github.com/ozanh/ugo"
 	"github.com/ozanh/ugo/encoder"
@@ -543,6 +544,7 @@ func init() {
 		},
 		Run:          c18Run,
 		Crashy:       true,
+		RunTimeout:   20 * time.Minute, // an enumeration run is thousands of decode calls
 		ShrinkBudget: 3000,
 		Exhaustive:   func(string) bool { return false },
 		WallCap: func(tier string) float64 {
